@@ -495,14 +495,16 @@ pub struct XNode {
     pub kids: Vec<XKid>,
     /// `<data> <script> <content> <assign>`: the reader takes the raw source span
     pub raw: bool,
+    /// written as `<a></a>` even without children (`<if>`, `<foreach>` in the canonical form)
+    pub pair: bool,
 }
 
 pub fn el(name: &str, attrs: Vec<(String, String)>, kids: Vec<XNode>) -> XNode {
-    XNode { name: name.to_string(), attrs, kids: kids.into_iter().map(XKid::El).collect(), raw: false }
+    XNode { name: name.to_string(), attrs, kids: kids.into_iter().map(XKid::El).collect(), raw: false, pair: false }
 }
 
 fn raw_el(name: &str, attrs: Vec<(String, String)>, text: Option<String>) -> XNode {
-    XNode { name: name.to_string(), attrs, kids: text.into_iter().map(XKid::Text).collect(), raw: true }
+    XNode { name: name.to_string(), attrs, kids: text.into_iter().map(XKid::Text).collect(), raw: true, pair: false }
 }
 
 pub fn at(k: &str, v: &str) -> (String, String) {
@@ -618,16 +620,16 @@ impl XB {
             let seps = [" ", "  ", "\t", "\n", " \n\t ", "\r\n"];
             let mut s = String::new();
             if self.p.chance(1, 4) {
-                s.push_str(self.p.pick(&seps));
+                s.push_str(*self.p.pick(&seps[..]));
             }
             for (i, x) in l.iter().enumerate() {
                 if i > 0 {
-                    s.push_str(self.p.pick(&seps));
+                    s.push_str(*self.p.pick(&seps[..]));
                 }
                 s.push_str(x);
             }
             if self.p.chance(1, 4) {
-                s.push_str(self.p.pick(&seps));
+                s.push_str(*self.p.pick(&seps[..]));
             }
             out.push(at(k, &s))
         } else {
@@ -756,13 +758,17 @@ impl XB {
                             }
                         }
                     }
-                    out.push(el("if", vec![at("cond", cond)], kids))
+                    let mut x = el("if", vec![at("cond", cond)], kids);
+                    x.pair = !(self.o.keywords && self.p.chance(1, 2));
+                    out.push(x)
                 }
                 Content::Foreach { array, item, index, body } => {
                     let mut a = vec![at("array", array), at("item", item)];
                     self.nonempty("index", index, &mut a);
                     let kids = self.block(body);
-                    out.push(el("foreach", a, kids))
+                    let mut x = el("foreach", a, kids);
+                    x.pair = !(self.o.keywords && self.p.chance(1, 2));
+                    out.push(x)
                 }
             }
         }
@@ -1110,11 +1116,11 @@ impl<'a> Rn<'a> {
                     if self.st.pair_empty_raw {
                         self.open_tag(&qn, &attrs, out, ">");
                         out.push_str(&format!("</{}>", qn));
-                        sax.push(format!("(s,{}{})", sx_str(&x.name), Self::sax_attrs(&attrs)));
-                        sax.push(format!("(e,{})", sx_str(&x.name)));
+                        sax.push(format!("(s,{}{})", sx_str(&qn), Self::sax_attrs(&attrs)));
+                        sax.push(format!("(e,{})", sx_str(&qn)));
                     } else {
                         self.open_tag(&qn, &attrs, out, "/>");
-                        sax.push(format!("(m,{}{})", sx_str(&x.name), Self::sax_attrs(&attrs)));
+                        sax.push(format!("(m,{}{})", sx_str(&qn), Self::sax_attrs(&attrs)));
                     }
                 }
                 Some(XKid::Text(t)) => {
@@ -1129,33 +1135,33 @@ impl<'a> Rn<'a> {
                     }
                     out.push_str(&span);
                     out.push_str(&format!("</{}>", qn));
-                    sax.push(format!("(s,{}{})", sx_str(&x.name), Self::sax_attrs(&attrs)));
+                    sax.push(format!("(s,{}{})", sx_str(&qn), Self::sax_attrs(&attrs)));
                     if !span.is_empty() {
                         sax.push(format!("(t,{})", sx_str(&span)));
                     }
-                    sax.push(format!("(e,{})", sx_str(&x.name)));
+                    sax.push(format!("(e,{})", sx_str(&qn)));
                 }
                 Some(XKid::El(_)) => unreachable!(),
             }
             return;
         }
         if x.kids.is_empty() {
-            if self.st.pair_empty && self.p.chance(1, 2) {
+            if x.pair || (self.st.pair_empty && self.p.chance(1, 2)) {
                 self.open_tag(&qn, &attrs, out, ">");
                 if self.st.ws && self.p.chance(1, 2) {
                     out.push_str("\n ");
                 }
                 out.push_str(&format!("</{}>", qn));
-                sax.push(format!("(s,{}{})", sx_str(&x.name), Self::sax_attrs(&attrs)));
-                sax.push(format!("(e,{})", sx_str(&x.name)));
+                sax.push(format!("(s,{}{})", sx_str(&qn), Self::sax_attrs(&attrs)));
+                sax.push(format!("(e,{})", sx_str(&qn)));
             } else {
                 self.open_tag(&qn, &attrs, out, "/>");
-                sax.push(format!("(m,{}{})", sx_str(&x.name), Self::sax_attrs(&attrs)));
+                sax.push(format!("(m,{}{})", sx_str(&qn), Self::sax_attrs(&attrs)));
             }
             return;
         }
         self.open_tag(&qn, &attrs, out, ">");
-        sax.push(format!("(s,{}{})", sx_str(&x.name), Self::sax_attrs(&attrs)));
+        sax.push(format!("(s,{}{})", sx_str(&qn), Self::sax_attrs(&attrs)));
         let kids: Vec<&XNode> = x
             .kids
             .iter()
@@ -1171,7 +1177,7 @@ impl<'a> Rn<'a> {
         } else {
             out.push_str(&format!("</{}>", qn));
         }
-        sax.push(format!("(e,{})", sx_str(&x.name)));
+        sax.push(format!("(e,{})", sx_str(&qn)));
     }
     fn children(&mut self, kids: &[&XNode], out: &mut String, sax: &mut Vec<String>) {
         let mut i = 0;
@@ -1204,9 +1210,9 @@ impl<'a> Rn<'a> {
                 } else {
                     self.open_tag(name, &attrs, out, "/>");
                 }
-                sax.push(format!("(s,{}{})", sx_str("include"), Self::sax_attrs(&attrs)));
+                sax.push(format!("(s,{}{})", sx_str(name), Self::sax_attrs(&attrs)));
                 sax.extend(inner_sax);
-                sax.push(format!("(e,{})", sx_str("include")));
+                sax.push(format!("(e,{})", sx_str(name)));
                 i = j;
             } else {
                 self.node(kids[i], &[], out, sax);
